@@ -351,5 +351,9 @@ def run(ck):
     _c7.import_results(ck, _m("C01"), "4", None, "3")
     _c7.import_results(ck, _m("C07"), "2", None, "3")  # an unregistered Generic / Timer is inert: a Remove or Disable is applied once
     _c7.import_results(ck, _m("C07"), "4", "DispatcherInner", "3")
-
-
+    # ---- shared clauses demonstrated by seeding round 8 (the property broken by added code) --------------------
+    from props import common as _c8
+    import importlib as _il8
+    _m8 = lambda n: _il8.import_module('props.' + n)
+    _c8.import_results(ck, _m8("C16"), "3", "Generic", "3")  # Reregister re-registers: Generic always reaches the poller
+    _c8.import_results(ck, _m8("C07"), "4", "LoopHandle", "3")  # a disable() request is never answered from a memo (a superseded deferred disable leaves it stale)
